@@ -710,6 +710,7 @@ func c16Engine(env *Env, rep *Report) {
 		rep.Nontrivial++
 		rep.Count("engine_isolation_shared_option")
 	}
+	propertyPerRequest(env, rep, "C16-engine", "C16-isolation")
 	// every task result is stored, also when two tokens wait in one task and are answered at the same time with
 	// different results: each answer's values must be readable afterwards, unchanged
 	for round := 0; round < 12 && !rep.Saturated(); round++ {
@@ -759,6 +760,89 @@ func c16Engine(env *Env, rep *Report) {
 			if !oka || !okb || !c16Same(va, ga) || !c16Same(vb, gb) {
 				rep.Violate("C16-engine", cs, fmt.Sprintf("task results read back: ra = %#v (present %v, stored %#v), rb = %#v (present %v, stored %#v)", ga, oka, va, gb, okb, vb))
 			}
+		}
+		in.Close()
+	}
+}
+
+// propertyPerRequest (shared by C16 and C08)
+func propertyPerRequest(env *Env, rep *Report, keyEngine, keyIsolation string) {
+	// a task property bound to a variable is resolved for every request anew: three instances of ONE parsed document
+	// with different values (the last with none), and one instance looping back to the task with a changed value
+	{
+		q := &Prog{}
+		q.Node("start", "start")
+		q.Node("xor", "M")
+		qt := q.Node("task", "T")
+		qt.Inner = `<bpmn:extensionElements><olive:properties>` +
+			`<olive:property name="c" value="" type="string"/>` +
+			`<olive:property name="k" value="" type="integer" ref="$cfg.n"/>` +
+			`</olive:properties><olive:results><olive:field name="c" type="string"/><olive:field name="again" type="boolean"/></olive:results></bpmn:extensionElements>`
+		qx := q.Node("xor", "X")
+		q.Node("end", "end")
+		q.Flow("start", "M", "")
+		q.Flow("M", "T", "")
+		q.Flow("T", "X", "")
+		q.Flow("X", "M", "again")
+		qx.Default = q.Flow("X", "end", "").ID
+		defs, err := ParseDefs(q.XML(""))
+		must(err)
+		propStr := func(t bpmn.TaskTrace, name string) string {
+			v, ok := t.GetProperties()[name]
+			if !ok || v == nil || v.Value() == nil {
+				return "<none>"
+			}
+			return fmt.Sprint(v.Value())
+		}
+		for i, val := range []any{"one", "two", nil} {
+			cs := fmt.Sprintf("instance %d of one parsed document, variable c = %v", i+1, val)
+			env.Current(cs)
+			vars := map[string]any{"again": false}
+			want := "<none>"
+			if val != nil {
+				vars["c"] = val
+				want = fmt.Sprint(val)
+			}
+			in, err := StartInst(defs, InstOpt{Vars: vars})
+			must(err)
+			rep.Evaluations++
+			rep.Nontrivial++
+			rep.Count("engine_property_per_request")
+			if tt := in.WaitTask("T", tmoStep); tt == nil {
+				rep.Violate(keyEngine, cs, "task not requested: "+logString(in.Log()))
+			} else {
+				if got := propStr(tt, "c"); got != want && !(want == "<none>" && got == "") {
+					rep.Violate(keyIsolation, cs, fmt.Sprintf("the task was handed property c = %q, the instance's variable says %q", got, want))
+				}
+				tt.Do()
+				in.WaitCease(tmoStep)
+			}
+			in.Close()
+		}
+		cs := "one instance looping back to the task, variable c changed by the first answer"
+		env.Current(cs)
+		in, err := StartInst(defs, InstOpt{Vars: map[string]any{"again": false, "c": "first"}})
+		must(err)
+		rep.Evaluations++
+		rep.Nontrivial++
+		rep.Count("engine_property_per_request")
+		var handed []string
+		for round, next := range []string{"second", ""} {
+			tt := in.WaitTask("T", tmoStep)
+			if tt == nil {
+				rep.Violate(keyEngine, cs, fmt.Sprintf("round %d: task not requested: %s", round, logString(in.Log())))
+				break
+			}
+			handed = append(handed, propStr(tt, "c"))
+			if next != "" {
+				tt.Do(bpmn.DoWithResults(map[string]any{"c": next, "again": true}))
+			} else {
+				tt.Do(bpmn.DoWithResults(map[string]any{"again": false}))
+			}
+		}
+		in.WaitCease(tmoStep)
+		if len(handed) == 2 && (handed[0] != "first" || handed[1] != "second") {
+			rep.Violate(keyEngine, cs, fmt.Sprintf("the task was handed property c = %v over the two rounds, expected [first second]", handed))
 		}
 		in.Close()
 	}
